@@ -7,3 +7,5 @@ def generate():
     extract_log.generate()
     extract_consts.generate()
     extract_meta.generate()
+    from . import extract_log, extract_statics
+    extract_statics.generate()
